@@ -656,6 +656,16 @@ func (c *Ctx) resolveFuncAnchors(a *Anchors) {
 			dot = append(dot, f)
 		}
 	}
+	if len(proj) == 0 {
+		// the right-hand side parser may take no power at all (one fixed power inside)
+		for _, f := range where(func(f *ssa.Function) bool {
+			return recvIs(f, P) && sig(f, nil, []func(types.Type) bool{isNode, isErr})
+		}) {
+			if buildsIdentity(f) && calls(f, a.ParseExpr) {
+				proj = append(proj, f)
+			}
+		}
+	}
 	a.ParseProjRHS = pick("the projection right-hand side: method (int) (ASTNode, error) that can yield the identity node", "parseProjectionRHS", proj)
 	a.ParseDotRHS = pick("the right-hand side of a dot: method (int) (ASTNode, error)", "parseDotRHS", dot)
 	a.Parse = pick("Parser.Parse: method (string) (ASTNode, error)", "Parse",
@@ -710,7 +720,8 @@ func (c *Ctx) resolveFuncAnchors(a *Anchors) {
 		}))
 	a.NewFCaller = pick("constructor of the function caller: func() *functionCaller", "newFunctionCaller",
 		where(func(f *ssa.Function) bool {
-			return f.Signature.Recv() == nil && sig(f, nil, []func(types.Type) bool{ptrTo(fcT)})
+			r := f.Signature.Results()
+			return f.Signature.Recv() == nil && r.Len() == 1 && ptrTo(fcT)(r.At(0).Type())
 		}))
 	isIfaceSlice := func(t types.Type) bool {
 		sl, ok := t.Underlying().(*types.Slice)
